@@ -134,9 +134,20 @@ def rawLogEntryFromLeaf (leafInput extraData : Bytes) : Except Err RawLogEntry :
 32 bytes, the signature field must be exactly one `DigitallySigned` (no trailing bytes). `ext` is the decoded
 `extensions` string (encoding/base64 is observed by the harness, not modelled here). -/
 
+/-- the Go value of a `tls.DigitallySigned` back as an RFC value -/
+def dsOfVal : Val → Option Rfc.DigitallySigned
+  | .struct [.struct [.num h, .num s], .bytes sig] => some ⟨h, s, sig⟩
+  | _ => none
+
+/-- `tls.Unmarshal(sig, &ds)` with the "trailing data" test, on the regenerated `ct.DigitallySigned` -/
+def parseDS (sig : Bytes) : Option Rfc.DigitallySigned :=
+  match decAll tDigitallySigned sig with
+  | .ok v => dsOfVal v
+  | .error _ => none
+
 def toSCT (version : Nat) (id : Bytes) (timestamp : Nat) (ext : Bytes) (sig : Bytes) : Option Rfc.SCT :=
   if id.length = 32 then
-    match Rfc.complete (Rfc.decDigitallySigned sig) with
+    match parseDS sig with
     | some d => some ⟨version, id, timestamp, ext, d⟩
     | none => none
   else none
@@ -149,6 +160,22 @@ structure STH where
 deriving Repr, DecidableEq
 
 def toSTH (treeSize timestamp : Nat) (root : Bytes) (sig : Bytes) : Option STH :=
+  if root.length = 32 then
+    match parseDS sig with
+    | some d => some ⟨treeSize, timestamp, root, d⟩
+    | none => none
+  else none
+
+/-- the same two conversions written with the RFC decoder only (what `ctvmodel C04` answers with; `C04.toSCT_eq_rfc` /
+`toSTH_eq_rfc` prove them equal to the models above) -/
+def toSCTRfc (version : Nat) (id : Bytes) (timestamp : Nat) (ext : Bytes) (sig : Bytes) : Option Rfc.SCT :=
+  if id.length = 32 then
+    match Rfc.complete (Rfc.decDigitallySigned sig) with
+    | some d => some ⟨version, id, timestamp, ext, d⟩
+    | none => none
+  else none
+
+def toSTHRfc (treeSize timestamp : Nat) (root : Bytes) (sig : Bytes) : Option STH :=
   if root.length = 32 then
     match Rfc.complete (Rfc.decDigitallySigned sig) with
     | some d => some ⟨treeSize, timestamp, root, d⟩
